@@ -219,6 +219,15 @@ fn k4_match_stress_tone() {
         assert!(want == stress_ok(slot_truth(&stress[0], &None).flatten(), slot_truth(&stress[1], &None).flatten(), s0), "binary rows equal the manual's table");
         assert!(sr.alphas.borrow().is_empty());
     }
+    if bound.is_none() && want {
+        let inv = |m: &Option<ModKind>| matches!(m, Some(ModKind::Alpha(AlphaMod::InvAlpha(_))));
+        let al = sr.alphas.borrow();
+        if is_alpha(&stress[0]) {
+            assert!(matches!(al.get(&'α'), Some(Alpha::Supra(v)) if *v == ((s0 != StressKind::Unstressed) != inv(&stress[0]))), "alpha on stress captures stressed / unstressed");
+        } else if is_alpha(&stress[1]) {
+            assert!(matches!(al.get(&'α'), Some(Alpha::Supra(v)) if *v == ((s0 == StressKind::Secondary) != inv(&stress[1]))), "alpha on sec.stress captures secondary / not");
+        }
+    }
     let t: u16 = kani::any();
     assert!(sr.match_tone(&t, &sy) == (t == t0), "[tone:n] matches the whole tone, 0 = none");
 }
@@ -260,6 +269,19 @@ fn k4_match_seg_length() {
         }
     }
     assert!(matches!(r, Ok(x) if x == want), "length matching table (incl. alpha capture)");
+    // capture rule (C07 relies on it): an unbound alpha on `long` binds to n > 1, on `overlong` to n > 2 (inverted for -alpha)
+    if bound.is_none() && want {
+        let inv = |m: &Option<ModKind>| matches!(m, Some(ModKind::Alpha(AlphaMod::InvAlpha(_))));
+        let is_a = |m: &Option<ModKind>| matches!(m, Some(ModKind::Alpha(_)));
+        let al = sr.alphas.borrow();
+        if is_a(&length[0]) {
+            assert!(matches!(al.get(&'α'), Some(Alpha::Supra(v)) if *v == ((n > 1) != inv(&length[0]))), "alpha on long captures n > 1");
+        } else if is_a(&length[1]) {
+            assert!(matches!(al.get(&'α'), Some(Alpha::Supra(v)) if *v == ((n > 2) != inv(&length[1]))), "alpha on overlong captures n > 2");
+        } else {
+            assert!(al.is_empty());
+        }
+    }
 }
 
 // ---- C07: %:[alpha stress] > [alpha stress] must leave the syllable's stress alone -- one harness per stress kind
